@@ -2,6 +2,7 @@ package rules
 
 import (
 	"go/token"
+	"go/types"
 
 	"golang.org/x/tools/go/ssa"
 
@@ -540,27 +541,10 @@ func c11check(c *an.Ctx) {
 		}
 		c.Check(perms["subscribe"] && perms["publish"], fn, "permission selected by channel emptiness", fn.Pos(), "", "IsAllowed does not require \"subscribe\" for a non-empty channel and \"publish\" otherwise")
 		// true only after topic regex matched and a channel regex matched
-		var matches []*ssa.Call
-		an.Instrs(fn, func(in ssa.Instruction) {
-			if call, ok := in.(*ssa.Call); ok && an.StdCallee(call, "regexp", "(*Regexp).MatchString") {
-				matches = append(matches, call)
-			}
-		})
+		matches := matchCalls(fn, 0)
 		goodRe := len(matches) >= 2
 		for _, mc := range matches {
-			var tr []an.Edge
-			for _, t := range an.BoolTests(mc) {
-				tr = append(tr, t.True)
-			}
-			q := &an.PathQ{Fn: fn, StartEntry: true, Sink: func(in ssa.Instruction, _ *an.PathState) bool {
-				r, ok := in.(*ssa.Return)
-				if !ok {
-					return false
-				}
-				k, isC := an.Resolve(r.Results[0]).(*ssa.Const)
-				return !(isC && k.Value != nil && k.Value.String() == "false")
-			}, CutEdge: func(e an.Edge, _ *an.PathState) bool { return an.EdgeIn(e, tr) }}
-			if _, f := q.Find(); f {
+			if !trueOnlyPast(fn, mc) {
 				goodRe = false
 			}
 		}
@@ -598,4 +582,87 @@ func c11check(c *an.Ctx) {
 		_, f := q.Find()
 		c.Check(!f && ncalls > 0, fn, "state allows only what one of its grants allows", fn.Pos(), "", "State.IsAllowed can return true without any Authorization allowing the topic/channel")
 	}
+}
+
+// matchCalls: the calls in fn that say "this text matches this pattern": regexp's MatchString, or a helper of the same
+// package that returns true only past such a call (a predicate extracted from the grant check).
+func matchCalls(fn *ssa.Function, depth int) []*ssa.Call {
+	var out []*ssa.Call
+	an.Instrs(fn, func(in ssa.Instruction) {
+		call, ok := in.(*ssa.Call)
+		if !ok {
+			return
+		}
+		if an.StdCallee(call, "regexp", "(*Regexp).MatchString") {
+			out = append(out, call)
+			return
+		}
+		h := an.StaticCallee(call)
+		if h == nil || h == fn || h.Pkg != fn.Pkg || h.Blocks == nil || depth >= 2 {
+			return
+		}
+		if res := h.Signature.Results(); res.Len() != 1 || !types.Identical(res.At(0).Type(), types.Typ[types.Bool]) {
+			return
+		}
+		inner := matchCalls(h, depth+1)
+		if len(inner) == 0 {
+			return
+		}
+		// true only past one of its own match calls
+		var tr []an.Edge
+		for _, mc := range inner {
+			for _, t := range an.BoolTests(mc) {
+				tr = append(tr, t.True)
+			}
+		}
+		q := &an.PathQ{Fn: h, StartEntry: true, FullOnly: true, AllConsts: true, AllAlias: true, Sink: notFalseReturnBut(inner), CutEdge: func(e an.Edge, _ *an.PathState) bool { return an.EdgeIn(e, tr) }}
+		if _, f := q.Find(); !f {
+			out = append(out, call)
+		}
+	})
+	return out
+}
+
+func notFalseReturn(in ssa.Instruction, st *an.PathState) bool {
+	return notFalseReturnBut(nil)(in, st)
+}
+
+// notFalseReturnBut: a return whose value, on this path, is neither the constant false nor the verdict of one of the given
+// calls themselves (`return a && match(b)` returns match's own answer).
+func notFalseReturnBut(verdicts []*ssa.Call) func(in ssa.Instruction, st *an.PathState) bool {
+	return func(in ssa.Instruction, st *an.PathState) bool {
+		r, ok := in.(*ssa.Return)
+		if !ok || len(r.Results) == 0 {
+			return false
+		}
+		v := an.Resolve(r.Results[0])
+		if st != nil {
+			if k, known := st.ConstOf(r.Results[0]); known {
+				v = k
+			} else if sel := st.Selected(r.Results[0]); sel != nil {
+				v = an.Resolve(sel)
+			}
+		}
+		if k, isC := v.(*ssa.Const); isC && k.Value != nil && k.Value.String() == "false" {
+			return false
+		}
+		for _, mc := range verdicts {
+			if an.Strip(v) == ssa.Value(mc) {
+				return false
+			}
+		}
+		return true
+	}
+}
+
+// trueOnlyPast: fn returns something other than false only on paths that took the true edge of mc (or returns mc's own
+// verdict).
+func trueOnlyPast(fn *ssa.Function, mc *ssa.Call) bool {
+	var tr []an.Edge
+	for _, t := range an.BoolTests(mc) {
+		tr = append(tr, t.True)
+	}
+	q := &an.PathQ{Fn: fn, StartEntry: true, FullOnly: true, AllConsts: true, AllAlias: true, Sink: notFalseReturnBut([]*ssa.Call{mc}), CutEdge: func(e an.Edge, _ *an.PathState) bool { return an.EdgeIn(e, tr) }}
+	_, f := q.Find()
+	return !f
 }
